@@ -68,13 +68,15 @@ CLAIMED = {
             "phase_covariance(0) equals the zero-separation variance (under the assumed small-argument limit of K_{5/6}), and the two formulas satisfy "
             "D = 2(B(0)-B(r)) to 2e-3 of the saturation value (lemma chain over algebraic powers of 2 and pi and enclosed Gamma constants); saturation "
             "constant 2*0.0863 to 1e-3; Kolmogorov copies agree (6.88 / 6.8839), Yao expansion within [0.97,1.01] for r <= 1e-6 L; exact r0^(-5/3) scaling "
-            "of every copy; both screen generators take the square root of the same spectrum. NOT claimed: monotonicity, Hankel-transform relation, "
+            "of every copy; both screen generators take the square root of the same spectrum; every closed form returns for an INTEGER-typed array of separations "
+            "what it returns for the same values in float64. NOT claimed: monotonicity, Hankel-transform relation, "
             "positive semi-definiteness for arbitrary point sets (analytic facts about K_{5/6})",
             "kv uninterpreted and positive; Gamma constants enclosed within 1e-12 of libm; D >= 0 assumed in the formula-consistency lemma."),
     "C09": ("4 C09", "ft/ift/ft2/ift2 and the real variants, as exported by the module and by the package, are inverse "
             "pairs, linear, satisfy Parseval, equal the centred DFT (origin at the centre sample) and obey the shift "
             "theorem for every complex input and every delta>0 at each listed size (1-D N<=5 quick / <=8 thorough, "
-            "2-D N<=4 / <=6, batch shapes); decided per size by z3 over exact algebraic twiddles", ""),
+            "2-D N<=4 / <=6, batch shapes); decided per size by z3 over exact algebraic twiddles; the transform of a boolean- or integer-typed 0/1 array "
+            "equals the transform of the same values in float64", ""),
     "C10": ("4 C10", "angularSpectrum (any magnification), oneStepFresnel, twoStepFresnel (both the m!=1 and the ZeroDivisionError m==1 path), "
             "lensAgainst conserve sum|U|^2 d^2 (per-element unit-modulus lemmas with the physically expected stage scalars, then a chain "
             "query in the parameters) and are linear (linear-combination cut), for every complex field and every wavelength/spacing/distance "
@@ -110,7 +112,7 @@ CLAIMED = {
             "both origins, n<=4 quick / <=6 thorough: boundary-touching, half-pixel and off-array centres included) - nesting, symmetry and "
             "integer-shift translation are consequences; findActiveSubaps returns exactly the row-major cells with mean>=threshold with "
             "fills=means for symbolic masks/thresholds incl. sizes that are not multiples of the count; computeFillFactor reproduces the fills "
-            "when the size is a multiple; make_subaps_2d scatter/read-back identity for every 0/1 mask", "area -> pi r^2 is a limit statement, outside."),
+            "when the size is a multiple; make_subaps_2d scatter/read-back identity for every 0/1 mask given as an int, bool or float array", "area -> pi r^2 is a limit statement, outside."),
     "C15": ("5 C15", "on symbolic non-negative images, every feasible path of the threshold / sort branches: single bright pixel -> (x,y) for "
             "centre_of_gravity and brightest_pixel; invariance under multiplication by k>0 (2-D and stack paths, with and without threshold); "
             "shift equivariance for content away from the border; stack = each frame alone (as a 1-frame stack; as a 2-D image it is a recorded "
